@@ -78,3 +78,26 @@ package xsort
 //@   loop 1: invariant forall t int, j int {out[t], h.a[j]} :: i < t && t < len(out) && 0 <= j && j < len(h.a) ==> !less(out[t], h.a[j])
 //@   ensures iter.pos == iter.n && len(result) == min(max(k, 0), iter.n - old(iter.pos))
 //@   ensures forall t int, u int {result[t], result[u]} :: 0 <= t && t <= u && u < len(result) ==> !less(result[u], result[t])
+
+// TRUSTED: Slice delegates to sort.Slice, which permutes through a reflection-based swapper and calls
+// back a closure that reads the slice while it is being permuted; neither is inside the verified
+// subset. Assumed here: the result is a permutation of the input (witnesses perm and inv: mutually
+// inverse bijections on the integers - a permutation of [0, len) extended by the identity - stated
+// without range guards so that instantiation chains perm(inv(perm(..))) close at once),
+// sorted by less (clause labelled C190: a layer of its own, visible only to callers whose contract
+// mentions C190 - the set operations of xmaps need the permutation only, and the quadratic
+// sortedness instances made their obligations time out), and nothing outside the slice's window changes. The bounded stand-in
+// xsort.Slice-wrappers exercises the real code against this.
+//@ func Slice
+//@   trusted
+//@   props C19
+//@   requires less != nil
+//@   modifies elems(x)
+//@   ghostinit perm := lambda j int :: 0
+//@   ghostinit inv := lambda j int :: 0
+//@   ensures forall j int {perm[j]} {noix} :: inv[perm[j]] == j
+//@   ensures forall t int {inv[t]} {noix} :: perm[inv[t]] == t
+//@   ensures forall j int {perm[j]} {x[j]} :: 0 <= j && j < len(x) ==> 0 <= perm[j] && perm[j] < len(x) && x[j] == old(x[perm[j]])
+//@   ensures forall t int {inv[t]} {old(x[t])} :: 0 <= t && t < len(x) ==> 0 <= inv[t] && inv[t] < len(x) && x[inv[t]] == old(x[t])
+//@   ensures C190: forall i int, j int {x[i], x[j]} :: 0 <= i && i <= j && j < len(x) ==> !less(x[j], x[i])
+//@   ensures forall k int {row(x)[k]} :: k < off(x) || k >= off(x) + len(x) ==> row(x)[k] == old(row(x)[k])
